@@ -133,4 +133,3 @@ def prettify(xml: str) -> bytes:
     """Return a pretty-printed XML string for the Element."""
     reparsed = minidom.parseString(xml)
     return reparsed.toprettyxml(indent="\t", encoding='UTF-8')
-
